@@ -108,7 +108,9 @@ let op_of = function
   | x -> failwith ("exec: op " ^ S.to_string x)
 
 let frag_of = function
-  | S.L (S.A "frag" :: name :: cond :: sels) -> (nat name, { fr_cond = opt_nat cond; fr_sels = List.map sel_of sels })
+  | S.L (S.A "frag" :: name :: cond :: S.L (S.A "fdirs" :: ds) :: sels) ->
+    (nat name, { fr_cond = opt_nat cond; fr_sels = List.map sel_of sels; fr_dirs = List.map dir_of ds })
+  | S.L (S.A "frag" :: name :: cond :: sels) -> (nat name, { fr_cond = opt_nat cond; fr_sels = List.map sel_of sels; fr_dirs = [] })
   | x -> failwith ("exec: frag " ^ S.to_string x)
 
 (* ---- canonical printing of observations ---- *)
